@@ -196,7 +196,8 @@ func (a *c10) computeSummaries() {
 					}
 					al := aliasClosure(pr[0], r)
 					for _, ret := range returnsOf(f) {
-						for _, res := range ret.Results {
+						for k := range ret.Results {
+							res := returnedValue(ret, k)
 							if al[res] || al[strip(res)] {
 								hit = true
 							}
